@@ -149,6 +149,18 @@ func modeName(crc bool) string {
 type ctx struct {
 	o    *vrt.Obs
 	seed int64
+	// memo: a few earlier (input, mode, write partition) -> compressed bytes of this case. "The
+	// compressed bytes depend only on the input" also means: not on what this process compressed or
+	// decompressed before (recycled codec state). Every 8th compression repeats an earlier one.
+	memo  []memoEntry
+	calls int
+}
+
+type memoEntry struct {
+	in    []byte
+	crc   bool
+	parts []int
+	out   []byte
 }
 
 const maxViolationsPerCase = 40
@@ -175,6 +187,23 @@ func firstDiff(a, b []byte) int {
 func (c *ctx) compress(what string, in []byte, crc bool, parts []int, partName string) ([]byte, bool) {
 	res := lzwork.Compress(in, crc, parts)
 	if res.OK() {
+		c.calls++
+		if len(in) <= 4096 && c.calls%5 == 0 {
+			if len(c.memo) < 6 {
+				c.memo = append(c.memo, memoEntry{append([]byte(nil), in...), crc, append([]int(nil), parts...), append([]byte(nil), res.Out...)})
+			} else {
+				c.memo[(c.calls/5)%6] = memoEntry{append([]byte(nil), in...), crc, append([]int(nil), parts...), append([]byte(nil), res.Out...)}
+			}
+		}
+		if c.calls%8 == 0 && len(c.memo) > 0 {
+			m := c.memo[(c.calls/8)%len(c.memo)]
+			again := lzwork.Compress(m.in, m.crc, m.parts)
+			c.o.Count("earlier_compressions_repeated", 1)
+			if again.OK() && !bytes.Equal(again.Out, m.out) {
+				c.violate("history-dependent-output:"+modeName(m.crc), map[string]any{"input_hex": lzwork.Hex(m.in, 200), "first_hex": lzwork.Hex(m.out, 200), "again_hex": lzwork.Hex(again.Out, 200)},
+					"compressing the same %d-byte input again later in the same process gave different bytes (first difference at %d): the output depends on what was compressed before", len(m.in), firstDiff(again.Out, m.out))
+			}
+		}
 		return res.Out, true
 	}
 	det := map[string]any{"input": what, "input_hex": lzwork.Hex(in, 200), "mode": modeName(crc), "partition": partName}
